@@ -168,6 +168,18 @@ func fhirCarrier(m model.CVal, variant int) (any, bool) {
 			loc = gen.TZLoc(tz)
 		}
 		t := time.Date(m.T.Y, time.Month(m.T.Mo), m.T.D, 0, 0, 0, 0, loc)
+		if variant >= 2 {
+			// the same civil date, the instant late in its evening (an element built from a point in time)
+			tz = []string{"-03:30", "-09:30", "+05:45", "-00:30"}[(m.T.Y+m.T.Mo+m.T.D)%4]
+			mo, d := m.T.Mo, m.T.D
+			if m.T.Comps < 2 {
+				mo = 12
+			}
+			if m.T.Comps < 3 {
+				d = 28
+			}
+			t = time.Date(m.T.Y, time.Month(mo), d, 23, 45, 0, 0, gen.TZLoc(tz))
+		}
 		p := []dtpb.Date_Precision{0, dtpb.Date_YEAR, dtpb.Date_MONTH, dtpb.Date_DAY}[m.T.Comps]
 		return &dtpb.Date{ValueUs: t.UnixMicro(), Timezone: tz, Precision: p}, true
 	case "DateTime":
@@ -179,6 +191,17 @@ func fhirCarrier(m model.CVal, variant int) (any, bool) {
 				loc = gen.TZLoc(tz)
 			}
 			t := time.Date(m.T.Y, time.Month(m.T.Mo), m.T.D, 0, 0, 0, 0, loc)
+			if variant >= 2 {
+				tz = []string{"-03:30", "-09:30", "+05:45", "-00:30"}[(m.T.Y+m.T.Mo+m.T.D)%4]
+				mo, d := m.T.Mo, m.T.D
+				if m.T.Comps < 2 {
+					mo = 12
+				}
+				if m.T.Comps < 3 {
+					d = 28
+				}
+				t = time.Date(m.T.Y, time.Month(mo), d, 23, 45, 0, 0, gen.TZLoc(tz))
+			}
 			p := []dtpb.DateTime_Precision{0, dtpb.DateTime_YEAR, dtpb.DateTime_MONTH, dtpb.DateTime_DAY}[m.T.Comps]
 			return &dtpb.DateTime{ValueUs: t.UnixMicro(), Timezone: tz, Precision: p}, true
 		case m.T.Comps == 6 && m.T.HasTZ:
@@ -328,7 +351,10 @@ func c05Build(env *core.Env) *c05Pool {
 				p.runtime = append(p.runtime, &dtpb.Instant{ValueUs: dt.ValueUs, Timezone: dt.Timezone})
 			}
 		}
-		for variant := 0; variant < 2; variant++ {
+		for variant := 0; variant < 3; variant++ {
+			if variant == 2 && !(m.Kind == "Date" || (m.Kind == "DateTime" && m.T.Comps <= 3)) {
+				break
+			}
 			if fv, ok := fhirCarrier(m, variant); ok {
 				if variant == 1 && m.Kind != "Integer" && m.Kind != "String" && m.Kind != "Date" && !(m.Kind == "DateTime" && m.T.Comps <= 3) {
 					break
